@@ -9,6 +9,8 @@
 -/
 import SV.Proofs.C01
 import SV.Proofs.C01Regex
+import SV.Proofs.C01Merge
+import SV.Proofs.C01Body
 
 namespace SV.Props.C01
 open SV SV.Model.C01 SV.Spec.JsonSchema SV.Spec.C01 SV.Proofs.C01
@@ -242,6 +244,205 @@ theorem C01_pattern_merge_internal_error :
     updateQuantifier { atom := .repaired } [(.cls 0 : Item Nat)] (some 3) (some 1) = .ok [.cls 0] false := by
   decide
 
+/-! ### the string schema `update_pattern_in_schema` leaves (pattern + whichever length keywords stay), any anchoring -/
+
+open SV.Proofs.C01Merge
+
+/-- **C01_pattern_merge_search_monotone.** Whatever positional assertions a pattern carries (`^`, `$`, `\\A`, `\\Z`, `\\b`,
+    `\\B`, none, on one side only) and however wide its repeated groups are: a string in which the rewritten pattern
+    finds a match is a string in which the original pattern finds one — except for the shape of finding F32 (a single
+    bare literal/class between two assertions). `bnd` interprets assertions the model does not name. -/
+theorem C01_pattern_merge_search_monotone {α : Type} (sat : α → Char → Bool) (bnd : List Char → List Char → Bool) (v : RxV)
+    (items out : List (Item α)) (lo hi : Option Nat) (w : Bool) (hwf : wfItems items)
+    (hb : bareBetweenAt items = false) (hq : updateQuantifier v items lo hi = .ok out w) :
+    ∀ s, Search sat bnd out s → Search sat bnd items s :=
+  fun _ h => updateQuantifier_mono v items out lo hi w hwf hb hq h
+
+/-- **C01_length_keywords_dropped_only_if_anchored.** With the repaired test of `update_pattern_in_schema`
+    (`is_anchored`) `minLength`/`maxLength` leave the schema only when the pattern was re-rendered *and* starts with a
+    begin-of-string anchor and ends with an end-of-string anchor; word boundaries and other assertions do not count. -/
+theorem C01_length_keywords_dropped_only_if_anchored {α : Type} (v : RxV) (sameText : Bool) (items out : List (Item α))
+    (lo hi : Option Nat) (hm : mergeLengths v .repaired sameText items lo hi = .ok ⟨out, false⟩) :
+    updateQuantifier v items lo hi = .ok out true ∧
+    ∃ first middle last, items = first :: middle ++ [last] ∧ isBegin first = true ∧ isEnd last = true :=
+  ⟨(mergeLengths_dropped v sameText items out lo hi hm).2,
+   isAnchored_shape items (mergeLengths_dropped v sameText items out lo hi hm).1⟩
+
+/-- **C01_pattern_schema_merge_sound.** The string schema that `update_pattern_in_schema` leaves — the (possibly
+    rewritten) pattern together with the length keywords that are still there — accepts only strings that the original
+    `pattern` + `minLength`/`maxLength` accept, under `re.search` semantics, for *every* anchoring: anchored at both
+    ends (lengths dropped; one-character-wide repeats, the hypotheses of `C01_pattern_merge_sound`), anchored on one
+    side, delimited by word boundaries, not anchored (lengths kept; any repeats). F32's shape is excluded. -/
+theorem C01_pattern_schema_merge_sound {α : Type} (sat : α → Char → Bool) (bnd : List Char → List Char → Bool) (v : RxV)
+    (sameText : Bool) (items out : List (Item α)) (lo hi : Option Nat) (keep : Bool)
+    (hwf : wfItems items) (hb : bareBetweenAt items = false) (hanch : AnchoredOK v items hi)
+    (hm : mergeLengths v .repaired sameText items lo hi = .ok ⟨out, keep⟩) :
+    ∀ s, Accepts sat bnd out keep lo hi s → Search sat bnd items s ∧ LenOK lo hi s.length :=
+  fun s h => ⟨(mergeLengths_sound v sameText items out lo hi keep hwf hb hanch hm s h).1,
+              (mergeLengths_sound v sameText items out lo hi keep hwf hb hanch hm s h).2 rfl⟩
+
+/-- non-vacuity: `\\b[a-z]+\\b` + `maxLength 3` is rewritten with the length kept, `^[a-z]+$` + `maxLength 3` with the
+    length dropped; both meet the hypotheses of `C01_pattern_schema_merge_sound` -/
+example :
+    mergeLengths {} .repaired false [(.at .wordB : Item Nat), .rep 1 MAXREPEAT (.atom 0), .at .wordB] none (some 3)
+      = .ok ⟨[.at .wordB, .rep 1 3 (.atom 0), .at .wordB], true⟩ ∧
+    mergeLengths {} .repaired false [(.at .bos : Item Nat), .rep 1 MAXREPEAT (.atom 0), .at .eos] none (some 3)
+      = .ok ⟨[.at .bos, .rep 1 3 (.atom 0), .at .eos], false⟩ ∧
+    isAnchored [(.at .wordB : Item Nat), .rep 1 MAXREPEAT (.atom 0), .at .wordB] = false ∧
+    isAnchored [(.at .bos : Item Nat), .rep 1 MAXREPEAT (.atom 0), .at .wordB] = false := by
+  decide
+
+example : AnchoredOK ({} : RxV) [(.at .wordB : Item Nat), .rep 1 MAXREPEAT (.atom 0), .at .wordB] (some 3) := by
+  intro first middle last e hb _
+  simp only [List.cons_append, List.cons.injEq] at e
+  rw [← e.1] at hb
+  simp [isBegin] at hb
+
+example : AnchoredOK ({} : RxV) [(.at .bos : Item Nat), .rep 1 MAXREPEAT (.atom 0), .at .eos] (some 3) := by
+  intro first middle last e _ _
+  have hm : middle = [.rep 1 MAXREPEAT (.atom 0)] := by
+    rcases middle with _ | ⟨m1, _ | ⟨m2, rest⟩⟩ <;> simp_all
+  subst hm
+  exact ⟨by decide, .inr (by intro h hh; cases hh; decide), by intro h hh; cases hh; decide⟩
+
+/-- **(the seeded class of F5, word boundaries)**: if the length keywords were dropped for a pattern delimited by word
+    boundaries — `\\b[a-z]+\\b` + `maxLength 3` becoming `\\b([a-z]){1,3}\\b` on its own — "ab-ab" (5 characters) would be
+    accepted: `\\b` is satisfied in the middle of the string. The as-found length-drop site does exactly that; the
+    repaired one keeps `maxLength`. -/
+theorem C01_pattern_merge_word_boundary_full_false (bnd : List Char → List Char → Bool) :
+    mergeLengths {} .asFound false [(.at .wordB : Item Nat), .rep 1 MAXREPEAT (.atom 0), .at .wordB] none (some 3)
+      = .ok ⟨[.at .wordB, .rep 1 3 (.atom 0), .at .wordB], false⟩ ∧
+    Accepts satW bnd [(.at .wordB : Item Nat), .rep 1 3 (.atom 0), .at .wordB] false none (some 3) "ab-ab".toList ∧
+    ¬ LenOK none (some 3) "ab-ab".toList.length ∧
+    ¬ Accepts satW bnd [(.at .wordB : Item Nat), .rep 1 3 (.atom 0), .at .wordB] true none (some 3) "ab-ab".toList := by
+  refine ⟨by decide, ⟨⟨[], "ab".toList, "-ab".toList, by decide, ?_⟩, fun h => by cases h⟩, ?_, ?_⟩
+  · refine .at (by simp only [atOK]; decide) ?_
+    have hrep : Matches satW (itemRe (.rep 1 3 (.atom 0) : Item Nat)) "ab".toList :=
+      Matches.rep [['a'], ['b']] (fun w hw => by
+        simp only [List.mem_cons, List.mem_nil_iff, or_false] at hw
+        rcases hw with rfl | rfl <;> exact .atom (by decide)) (by decide) (.inr (by decide))
+    have : SeqAt satW bnd [(.rep 1 3 (.atom 0) : Item Nat), .at .wordB] [] ("ab".toList ++ []) "-ab".toList :=
+      .item rfl hrep (.at (by simp only [atOK]; decide) .nil)
+    simpa using this
+  · intro h; have := h.2 3 rfl; simp at this
+  · intro h; have := (h.2 rfl).2 3 rfl; simp at this
+
 end Regex
+
+/-! ## which strategy a request-body alternative gets (`_get_body_strategy` and the strategy caches), over histories -/
+
+section Body
+open SV.Model.C01Body SV.Spec.C01Body SV.Proofs.C01Body
+
+/-- **C01_strategy_cache_transparent.** A memo table that is consulted with `key r` and filled with `build r` answers
+    every request of every history exactly as if nothing were cached — provided the key separates requests that build
+    different things. (Both strategy caches of `_hypothesis.py` are such tables.) -/
+theorem C01_strategy_cache_transparent {R K S : Type} [DecidableEq K] (key : R → K) (build : R → S) (rs : List R)
+    (hsep : ∀ r ∈ rs, ∀ r' ∈ rs, key r = key r' → build r = build r') :
+    runCache key build [] rs = rs.map build :=
+  runCache_spec key build rs hsep rs [] (fun _ h => h) (cacheInv_nil key build rs)
+
+/-- **C01_strategy_cache_key_must_separate** (the converse): two requests that share a key but build different things
+    make the two-request history answer the second one with the strategy of the first. -/
+theorem C01_strategy_cache_key_must_separate {R K S : Type} [DecidableEq K] (key : R → K) (build : R → S) (r r' : R)
+    (hk : key r' = key r) (hne : build r ≠ build r') :
+    runCache key build [] [r, r'] = [build r, build r] ∧ runCache key build [] [r, r'] ≠ [r, r'].map build := by
+  have h : runCache key build [] [r, r'] = [build r, build r] := by
+    simp [runCache, getOrBuild, lookupK, hk]
+  refine ⟨h, ?_⟩
+  rw [h]
+  intro e
+  simp only [List.map_cons, List.map_nil, List.cons.injEq, and_true, true_and] at e
+  exact hne e
+
+/-- **C01_body_strategy_is_for_own_alternative.** For every history of body-strategy requests that one operation
+    receives (any interleaving of alternatives, repeats, positive and negative factories), every request is answered
+    with the strategy of the requested alternative: the user-registered one for its media type, or the one built from
+    the conversion of *its own* schema, with the `NOT_SET` branch exactly when it is optional and the factory is not the
+    negative one. The cache (keyed by alternative and factory) never shows. -/
+theorem C01_body_strategy_is_for_own_alternative (cfg : Cfg) (fuel : Nat) (custom : String → Bool) (alts : List Alt)
+    (rs : List BodyReq) (hop : FromOperation alts rs) :
+    runBody cfg fuel custom [] rs = rs.map (freshBody cfg fuel custom) :=
+  runBody_spec cfg fuel custom rs (bodyKey_separates alts rs hop cfg fuel) rs [] (fun _ h => h)
+    (cacheInv_nil bodyKey (buildBody cfg fuel) rs)
+
+/-- **C01_body_conforms_to_own_alternative.** Under the contract of the third-party generator (`hgen`: what
+    `from_schema s` yields is valid for `s`), whatever the positive strategy answered at step `i` of any history
+    yields is either `NOT_SET` for an optional body, or a value valid for the converted schema of the alternative that
+    was requested at that step — never for another alternative's. -/
+theorem C01_body_conforms_to_own_alternative (cfg : Cfg) (fuel : Nat) (custom : String → Bool) (alts : List Alt)
+    (rs : List BodyReq) (hop : FromOperation alts rs) (env : Env) (g : Nat) (gen : Json → Json → Prop)
+    (hgen : ∀ s v, gen s v → validF g (envPlain env) s v = true)
+    (i : Nat) (r : BodyReq) (hr : rs[i]? = some r) (hpos : r.factory = .positive) (hcus : custom r.alt.mediaType = false)
+    (st : Strat) (hst : (runBody cfg fuel custom [] rs)[i]? = some st) (x : BodyVal) (hy : Yields gen st x) :
+    match x with
+    | .notSet => r.alt.isRequired = false
+    | .val v => validF g (envPlain env) (bodySchema cfg fuel r.alt) v = true := by
+  rw [C01_body_strategy_is_for_own_alternative cfg fuel custom alts rs hop, List.getElem?_map, hr] at hst
+  simp only [Option.map_some, Option.some.injEq] at hst
+  subst hst
+  simp only [freshBody, hcus, Bool.false_eq_true, if_false, buildBody, hpos] at hy
+  cases x with
+  | notSet => simpa [Yields] using hy
+  | val v => exact hgen _ _ hy
+
+/-- **C01_body_conforms_to_declared_schema.** Composed with `C01_nullable_exact`: for an alternative that is not a
+    form and whose declared schema lies in the fragment, every value the positive strategy of any step of any history
+    yields conforms to the OpenAPI schema declared *for the requested media type* (request-side reading). -/
+theorem C01_body_conforms_to_declared_schema (cfg : Cfg) (fuel : Nat) (custom : String → Bool) (alts : List Alt)
+    (rs : List BodyReq) (hop : FromOperation alts rs) (env : Env) (g f : Nat) (gen : Json → Json → Prop)
+    (hgen : ∀ s v, gen s v → validF g (envPlain env) s v = true)
+    (hnn : cfg.nn = "nullable" ∨ cfg.nn = "x-nullable") (hresp : cfg.resp = false) (hp : cfg.updQ = true → PatExact env cfg)
+    (i : Nat) (r : BodyReq) (hr : rs[i]? = some r) (hpos : r.factory = .positive) (hcus : custom r.alt.mediaType = false)
+    (hk : r.alt.kind ≠ .v2form) (hform : r.alt.isForm = false)
+    (hS : Frag cfg.nn f fuel (.obj r.alt.schema) = true) (hg : 2 * f ≤ g)
+    (st : Strat) (hst : (runBody cfg fuel custom [] rs)[i]? = some st) (v : Json) (hy : Yields gen st (.val v)) :
+    validF f (envRequest env cfg.nn) (.obj r.alt.schema) v = true := by
+  have h := C01_body_conforms_to_own_alternative cfg fuel custom alts rs hop env g gen hgen i r hr hpos hcus st hst (.val v) hy
+  simp only at h
+  rw [bodySchema_plain cfg fuel r.alt hk hform] at h
+  rw [← C01_nullable_exact cfg env hnn hresp hp f fuel (.obj r.alt.schema) v hS g hg]
+  exact h
+
+/-- non-vacuity: an operation with a JSON object and a plain-text code; the history asks for JSON, text (negative),
+    text, JSON again — each answer is built from the requested alternative's own schema -/
+example :
+    let json : Alt := { kind := .v3, mediaType := "application/json", required := true,
+                        schema := [("type", .str "object"), ("required", .arr [.str "id"])] }
+    let text : Alt := { kind := .v3, mediaType := "text/plain", required := false,
+                        schema := [("type", .str "string"), ("nullable", .bool true)] }
+    let rs : List BodyReq := [⟨0, json, .positive⟩, ⟨1, text, .negative⟩, ⟨1, text, .positive⟩, ⟨0, json, .positive⟩]
+    FromOperation [json, text] rs ∧
+    (runBody {} 6 (fun _ => false) [] rs).map (fun st => match st with | .built s _ _ ns => (s.beq (bodySchema {} 6 json), ns) | _ => (false, false))
+      = [(true, false), (false, false), (false, true), (true, false)] := by
+  refine ⟨?_, by decide⟩
+  intro r hr
+  simp only [List.mem_cons, List.mem_nil_iff, or_false] at hr
+  rcases hr with rfl | rfl | rfl | rfl <;> rfl
+
+/-- **C01_body_cache_keyed_by_operation_full_false**: a table keyed by the operation alone (one key for all its
+    alternatives) answers the request for the second alternative with the strategy built for the first. -/
+theorem C01_body_cache_keyed_by_operation_full_false :
+    let build : Nat × Factory → Nat := fun r => r.1   -- "the schema of alternative number r.1"
+    runCache (fun _ : Nat × Factory => ()) build [] [(0, .positive), (1, .positive)] = [0, 0] ∧
+    runCache (fun r : Nat × Factory => r) build [] [(0, .positive), (1, .positive)] = [0, 1] := by
+  decide
+
+/-- **C01_param_cache_key_determines_schema.** The key of the parameter-strategy cache — (factory, location,
+    sorted explicit names) under the operation — determines the factory, the location and the set of excluded names,
+    hence the object schema the strategy is built from: two requests with the same key build the same thing. -/
+theorem C01_param_cache_key_determines_schema (r r' : ParamReq) (hk : paramKey r = paramKey r') (s : Kvs) :
+    r.factory = r'.factory ∧ r.location = r'.location ∧ excludeNames r.exclude s = excludeNames r'.exclude s := by
+  simp only [paramKey, Prod.mk.injEq] at hk
+  refine ⟨hk.1, hk.2.1, excludeNames_congr _ _ ?_ s⟩
+  intro y
+  rw [← mem_sortNames y r.exclude, ← mem_sortNames y r'.exclude, hk.2.2]
+
+example :
+    paramKey ⟨.positive, "query", ["q", "limit"]⟩ = paramKey ⟨.positive, "query", ["limit", "q"]⟩ ∧
+    paramKey ⟨.positive, "query", ["q"]⟩ ≠ paramKey ⟨.positive, "header", ["q"]⟩ := by
+  decide
+
+end Body
 
 end SV.Props.C01
